@@ -11,7 +11,8 @@ use sourcemap::{DecodedMap, RawToken, SourceMap, SourceMapIndex, SourceMapSectio
 const ZWJ: char = '\u{200d}';
 
 fn names_pool() -> Vec<String> {
-    vec!["a".into(), "ab".into(), "é".into(), "a𝒜".into(), "$_".into(), format!("a{ZWJ}b")]
+    // e + U+0301: a combining mark may continue an identifier but not start one
+    vec!["a".into(), "ab".into(), "é".into(), "a𝒜".into(), "$_".into(), format!("a{ZWJ}b"), "e\u{301}t".into()]
 }
 
 /// identifier classification, exact on the alphabet the programs are built from
@@ -19,7 +20,7 @@ fn is_start(c: char) -> bool {
     c.is_ascii_alphabetic() || c == '$' || c == '_' || c == 'é' || c == '𝒜'
 }
 fn is_continue(c: char) -> bool {
-    is_start(c) || c.is_ascii_digit() || c == ZWJ || c == '\u{200c}'
+    is_start(c) || c.is_ascii_digit() || c == ZWJ || c == '\u{200c}' || c == '\u{301}'
 }
 fn is_identifier(s: &str) -> bool {
     let mut it = s.chars();
@@ -371,7 +372,7 @@ pub fn run(run: &mut Run) -> Finish {
     let st_full = statements(&full);
     let nsf = st_full.len() as u64;
     let n2 = n_seq_upto(nsf, 2) - 1;
-    run.par_slice("programs of 1..2 statements over 6 names x {function N(){}, var N=1;, N();} + a non-ASCII string statement, every line-break placement, every subset of <= 4 candidate token columns, all token positions and successors x 11 candidate names, 5 entry points", 1, n2, |idx, l| {
+    run.par_slice("programs of 1..2 statements over 7 names x {function N(){}, var N=1;, N();} + a non-ASCII string statement, every line-break placement, every subset of <= 4 candidate token columns, all token positions and successors x 11 candidate names, 5 entry points", 1, n2, |idx, l| {
         let picks = seq_upto_unrank(nsf, 2, (idx & ((1 << 40) - 1)) + 1);
         let mut sub = 0;
         for breaks in 0..(1u64 << (picks.len() - 1)) {
@@ -387,7 +388,7 @@ pub fn run(run: &mut Run) -> Finish {
     let st3 = statements(&pool3);
     let max3 = tier.pick(3usize, 4);
     let ns3 = st3.len() as u64;
-    run.par_slice("programs of exactly 3 statements (quick: names {a, é, a𝒜}; thorough: all 6), every line-break placement, every subset of <= 3/4 candidate columns", 2, ns3.pow(3), |idx, l| {
+    run.par_slice("programs of exactly 3 statements (quick: names {a, é, a𝒜}; thorough: all 7), every line-break placement, every subset of <= 3/4 candidate columns", 2, ns3.pow(3), |idx, l| {
         let picks = seq_of(idx & ((1 << 40) - 1), ns3, 3);
         let mut sub = 0;
         for breaks in 0..4u64 {
@@ -529,8 +530,8 @@ pub fn run(run: &mut Run) -> Finish {
     });
     Finish {
         level: "exploration",
-        rule: "E1: minified programs generated from a statement grammar (function declarations, var statements, calls, a non-ASCII string literal; names a, ab, é, a𝒜 (astral), $_, a<ZWJ>b; 1-3 statements, every line-break placement), with every subset of <= 4 tokens placed on identifier starts, keywords, '(' and at / past the end of each line and on a missing line and original names attached to two of every three tokens; every token position and its successor column x every pool name + non-identifiers, through SourceMap, SourceMapIndex, SourceView, DecodedMap (regular and index variant) and a fresh view. Oracle RFuncName: nothing if the name is not an identifier; walk back from the looked-up token, token text = identifier at the token's UTF-16 column, first token whose text is the name and whose predecessor's text is 'function' yields its original name. A token whose column lies inside a surrogate pair may read as either neighbouring boundary, but must not change what aligned tokens of the line read (slice 5: every such column next to tokens on the declarations). Whitespace columns: crash-freedom only, every column. Window: name-token rank <= 126 must resolve, >= 128 must not, 127 not asserted. Distinct by construction; non-trivial = the program/map/queries contain a resolvable function pair.".into(),
-        assumptions: vec!["identifier classification of the model is exact for the characters used (ASCII, é, 𝒜, $, _, ZWJ, ZWNJ)".into(), "with several tokens at one position the answer is asserted only when every order of the tied tokens (and every starting token an inexact lookup may land on) gives the same one".into()],
+        rule: "E1: minified programs generated from a statement grammar (function declarations, var statements, calls, a non-ASCII string literal; names a, ab, é, a𝒜 (astral), $_, a<ZWJ>b, e<U+0301>t (a continue-only combining mark); 1-3 statements, every line-break placement), with every subset of <= 4 tokens placed on identifier starts, keywords, '(' and at / past the end of each line and on a missing line and original names attached to two of every three tokens; every token position and its successor column x every pool name + non-identifiers, through SourceMap, SourceMapIndex, SourceView, DecodedMap (regular and index variant) and a fresh view. Oracle RFuncName: nothing if the name is not an identifier; walk back from the looked-up token, token text = identifier at the token's UTF-16 column, first token whose text is the name and whose predecessor's text is 'function' yields its original name. A token whose column lies inside a surrogate pair may read as either neighbouring boundary, but must not change what aligned tokens of the line read (slice 5: every such column next to tokens on the declarations). Whitespace columns: crash-freedom only, every column. Window: name-token rank <= 126 must resolve, >= 128 must not, 127 not asserted. Distinct by construction; non-trivial = the program/map/queries contain a resolvable function pair.".into(),
+        assumptions: vec!["identifier classification of the model is exact for the characters used (ASCII, é, 𝒜, $, _, ZWJ, ZWNJ, U+0301)".into(), "with several tokens at one position the answer is asserted only when every order of the tied tokens (and every starting token an inexact lookup may land on) gives the same one".into()],
         coverage_extra: json!({"names": names_pool()}),
     }
 }
